@@ -255,7 +255,7 @@ class Results:
             self.notes.append(r.get("msg", ""))
 
 
-def run_shards(exe, argsets, env, timeout, res=None, cwd=None, ok_codes=(0,), label=""):
+def run_shards(exe, argsets, env, timeout, res=None, cwd=None, ok_codes=(0,), label="", inputs=None, on_line=None):
     """Run one process per element of argsets (lists of argv tails), NCPU at a
     time; feed stdout JSON lines into a Results.  A shard that dies or times
     out is recorded as a 'shard' violation record (the engines confine crashes
@@ -263,18 +263,21 @@ def run_shards(exe, argsets, env, timeout, res=None, cwd=None, ok_codes=(0,), la
     a crash outside a confined region, and is reported with its output)."""
     res = res or Results()
 
-    def one(args):
+    def one(job):
+        i, args = job
         t0 = time.time()
         try:
             p = subprocess.run([exe] + [str(a) for a in args], stdout=subprocess.PIPE, stderr=subprocess.PIPE,
-                               env=env, timeout=timeout, cwd=cwd)
+                               env=env, timeout=timeout, cwd=cwd, input=(inputs[i].encode() if inputs else None))
             return args, p.returncode, p.stdout.decode("utf-8", "replace"), p.stderr.decode("utf-8", "replace"), time.time() - t0
         except subprocess.TimeoutExpired as e:
             return args, "timeout", (e.stdout or b"").decode("utf-8", "replace"), (e.stderr or b"").decode("utf-8", "replace"), time.time() - t0
 
     with cf.ThreadPoolExecutor(NCPU) as ex:
-        for args, rc, out, err, dt in ex.map(one, argsets):
+        for args, rc, out, err, dt in ex.map(one, list(enumerate(argsets))):
             for line in out.splitlines():
+                if on_line and on_line(line):
+                    continue
                 res.feed(line)
             if rc == "timeout":
                 res.incomplete = True
